@@ -25,6 +25,7 @@
 
 #include "scientificinfo.h"
 #include "clustering.h"
+#include "verifhooks.h"
 #include "metricspace.h"
 #include "numeric.h"
 #include "matrix.h"
@@ -785,6 +786,7 @@ void KMeansppCenters(matrix *m,
 
   /* Step 2 */
   while(q > 1){
+    LIBSCI_VERIF_TICK(3);
     size_t nobj = ceil((double)m->row/(double)nthreads);
     size_t from = 0;
     for(i = 0; i < nthreads; i++){
